@@ -90,7 +90,7 @@ PkgSeq(t) ==
 IsTrueBasic(t) == t.k = "unsafe" \/ (t.k = "basic" /\ t.n \notin {"error", "any"})
 BasicVarName(t) ==
   IF t.k = "unsafe" THEN "v"
-  ELSE CASE t.n = "bool" -> "b" [] t.n \in {"int", "rune"} -> "n" [] t.n = "float64" -> "f" [] t.n = "string" -> "s"
+  ELSE CASE t.n = "bool" -> "b" [] t.n \in {"int", "rune", "int64"} -> "n" [] t.n = "float64" -> "f" [] t.n = "string" -> "s"
          [] OTHER -> "v"                \* byte, uintptr (IsInteger|IsUnsigned # IsInteger), complex128
 RECURSIVE VarNameForType(_)
 \* nestedType(): deCapitalise(t.Name()) for a *types.Basic -- "pointer" for unsafe.Pointer (since 4c37ca2)
@@ -379,6 +379,11 @@ Pred == [pid |-> Prog.pid, tmpl |-> c.tmpl, inpkg |-> c.inpkg, ens |-> c.ens,
          tps |-> Main.tps,
          ifaces |-> [t \in 1..Len(outs) |-> IfaceOut(outs[t])],              \* every interface of the file, in order
          extras |-> [resets |-> AllowedExtras(TRUE), noresets |-> AllowedExtras(FALSE)],
+         \* one type expression mentions two packages of the same name: alias assignment must follow the traversal order
+         \* of populateImports (never a map): such cases are generated repeatedly and compared (C06-relevant)
+         samename |-> \E i \in 1..Len(AllScopes) : \E k \in 1..Len(AllScopes[i].vars) :
+                        LET ps_ == RefPkgs(AllScopes[i].vars[k].t) \ (IF c.inpkg THEN {"SRC"} ELSE {})
+                        IN \E p_, q_ \in ps_ : p_ # q_ /\ PkgName(p_, Prog.srcname) = PkgName(q_, Prog.srcname),
          modelissues |-> ModelIssues,
          issues |-> {[opts |-> o, tags |-> Issues(o)] : o \in OptSets}]
 \* the enumerated program must be legal Go: unique method names, distinct non-blank parameter/result names per method
